@@ -379,10 +379,17 @@ def run_artifact(case):
         raise Violation('artifact-format', 'artifact %r is not type 0x0004 + index + SHA1(entity id) + 20 byte handle' % (raw,))
     if int(raw[2:4]) != idx:
         raise Violation('artifact-index', 'endpoint index %r for %d' % (raw[2:4], idx))
-    info = e.apply_binding(BINDING_HTTP_ARTIFACT, art, case['dest'].split('?')[0], case['rs'], response=case['typ'] == 'SAMLResponse')
+    dest = case['dest']
+    info = e.apply_binding(BINDING_HTTP_ARTIFACT, art, dest, case['rs'], response=case['typ'] == 'SAMLResponse')
+    if not info['url'].startswith(dest):
+        raise Violation('artifact-destination', 'URL %r does not extend destination %r' % (info['url'][:80], dest))
     parts = urlsplit(info['url'])
-    got = parse_qsl(parts.query, keep_blank_values=True, strict_parsing=True)
-    exp = [('SAMLart', art)] + ([('RelayState', case['rs'])] if case['rs'] else [])
+    try:
+        got = parse_qsl(parts.query, keep_blank_values=True, strict_parsing=True)
+    except ValueError as ex:
+        raise Violation('artifact-url', 'query of %r does not parse strictly: %s' % (info['url'][:120], ex))
+    pre = parse_qsl(urlsplit(dest).query, keep_blank_values=True) if urlsplit(dest).query else []
+    exp = pre + [('SAMLart', art)] + ([('RelayState', case['rs'])] if case['rs'] else [])
     if got != exp:
         raise Violation('artifact-url', 'query %r expected %r' % (got[:3], exp[:3]))
     if e.artifact[dict(got)['SAMLart']] != msg:
